@@ -381,6 +381,26 @@ pub fn foreign_csrs(zoo: &[ZooKey]) -> Vec<(String, Vec<u8>, bool)> {
     v.push(("csr two SAN extensions whose names differ in case only".into(), sign(mk(&[case_a.clone(), case_b.clone()]).cri()), false));
     v.push(("csr one SAN extension with names that differ in case only".into(), sign(mk(&[case_ab]).cri()), false));
     v.push(("csr the same SAN extension twice".into(), sign(mk(&[case_a.clone(), case_a]).cri()), false));
+    // names in a spelling other software treats as equivalent to another one (absolute host names, a trailing dot
+    // in a mail domain or URI host, upper-case scheme): the requested bytes are what must be issued
+    let dot_a = RefExt::new(OID_SAN, false, ext_san(&[AbsGn::Dns(b"host.example.com.".to_vec())]));
+    let dot_b = RefExt::new(OID_SAN, false, ext_san(&[AbsGn::Dns(b"host.example.com.".to_vec()), AbsGn::Dns(b"host.example.com".to_vec()), AbsGn::Dns(b"localhost.".to_vec()), AbsGn::Dns(b".".to_vec()), AbsGn::Dns(b"a.b..".to_vec())]));
+    let dot_c = RefExt::new(OID_SAN, false, ext_san(&[AbsGn::Email(b"ops@example.com.".to_vec()), AbsGn::Uri(b"HTTPS://example.com./".to_vec()), AbsGn::Dns(b" host.example".to_vec()), AbsGn::Dns(b"host.example ".to_vec()), AbsGn::Dns(b"*.example.com.".to_vec())]));
+    v.push(("csr SAN: an absolute host name (trailing dot)".into(), sign(mk(&[dot_a]).cri()), false));
+    v.push(("csr SAN: absolute and relative twins, single-label and root names".into(), sign(mk(&[dot_b]).cri()), false));
+    v.push(("csr SAN: trailing dots and blanks in mail, URI and host names".into(), sign(mk(&[dot_c]).cri()), false));
+    // object identifiers that are not complete: the last subidentifier still has its continuation bit set. Such a
+    // request names no attribute type / name form at all: nothing rcgen could carry over
+    let cut_type = |oid_content: &[u8]| seq(&[set_of(&[seq(&[tlv(0x06, oid_content), string(T_UTF8, b"x")])])]);
+    for (l, c) in [("55 04 83", vec![0x55u8, 0x04, 0x83]), ("55 04 03 81", vec![0x55, 0x04, 0x03, 0x81]), ("55 04 03 ff ff", vec![0x55, 0x04, 0x03, 0xff, 0xff]), ("80", vec![0x80])] {
+        v.push((format!("csr subject: attribute type with unfinished object identifier {}", l), sign(seq(&[uint(&[0]), cut_type(&c), z.spki.clone(), ctx_cons(0, &[])])), true));
+    }
+    {
+        // otherName { type-id (unfinished), [0] UTF8String } inside a SAN
+        let other = tlv(0xa0, &[tlv(0x06, &[0x2b, 0x06, 0x01, 0x04, 0x01, 0x82, 0x37, 0x14, 0x02, 0x83]), tlv(0xa0, &string(T_UTF8, b"u@example"))].concat());
+        let e = RefExt::new(OID_SAN, false, seq(&[other]));
+        v.push(("csr SAN: otherName whose type-id is an unfinished object identifier".into(), sign(mk(&[e]).cri()), true));
+    }
     let eku_a = RefExt::new(OID_EKU, false, seq(&[oid(&[1, 3, 6, 1, 5, 5, 7, 3, 1])]));
     let eku_b = RefExt::new(OID_EKU, false, seq(&[oid(&[1, 3, 6, 1, 5, 5, 7, 3, 2]), oid(&[1, 3, 6, 1, 5, 5, 7, 3, 8])]));
     v.push(("csr two EKU extensions in one request".into(), sign(mk(&[eku_a.clone(), eku_b.clone()]).cri()), false));
